@@ -242,6 +242,7 @@ type c12World struct {
 	ptr     *int64
 	verbose bool
 	log     []string
+	after   []string // observer calls made by the operation, logged after it
 
 	apiCalls  int
 	obsCalls  int
@@ -474,60 +475,26 @@ func (w *c12World) audit() (class, detail string) {
 // path lookup in the model
 
 // resolvePath returns the acceptable results (nil entry = an error) or any=true
-// when the statement does not fix the outcome.
+// when the statement does not fix the outcome. The acceptable results are the
+// results under every reading of the first element (c12_r5.go: pathReadings);
+// the GetEnvFromPath operation additionally demands that ONE reading is
+// followed for a path and for its one-element prefix.
 func (w *c12World) resolvePath(s *c12Scope, path []string) (outs []*c12Scope, any bool) {
 	if len(path) == 0 {
 		return []*c12Scope{s}, false
 	}
-	var start *c12Scope
-	sawNonModule := false
-	for t := s; t != nil; t = t.parent {
-		if v, ok := t.vals[path[0]]; ok {
-			if e, isEnv := v.(*env.Env); isEnv && e != nil && w.byReal[e] != nil {
-				start = w.byReal[e]
-				break
-			}
-			sawNonModule = true
-		} else if t.ext != nil {
-			if _, ok := t.ext.mvals[path[0]]; ok {
-				sawNonModule = true // the nearest binding is supplied by an external lookup and is not a module
-			}
+	seen := map[*c12Scope]bool{}
+	for _, rd := range w.pathReadings(s, path[0]) {
+		out, a := w.followPath(rd.start, path[1:])
+		if a {
+			return nil, true
+		}
+		if !seen[out] {
+			seen[out] = true
+			outs = append(outs, out)
 		}
 	}
-	if start == nil {
-		return []*c12Scope{nil}, false
-	}
-	cur := start
-	for _, n := range path[1:] {
-		var next *c12Scope
-		if v, ok := cur.vals[n]; ok {
-			if e, isEnv := v.(*env.Env); isEnv && e != nil {
-				next = w.byReal[e]
-			}
-		}
-		if next == nil {
-			// UNSPECIFIED: whether later path elements are looked up only in the
-			// module's own table or along its parent chain. When the chain (beyond
-			// the own table) could supply a module, any non-panicking outcome is
-			// accepted; otherwise an error is required.
-			for t := cur.parent; t != nil; t = t.parent {
-				if v, ok := t.vals[n]; ok {
-					if e, isEnv := v.(*env.Env); isEnv && e != nil {
-						return nil, true
-					}
-				}
-			}
-			return []*c12Scope{nil}, false
-		}
-		cur = next
-	}
-	if sawNonModule {
-		// UNSPECIFIED (DESIGN.md C12): the nearest binding of the first element
-		// is not a module but an outer scope holds a module of that name:
-		// "error" and "outer module found" are both accepted.
-		return []*c12Scope{nil, cur}, false
-	}
-	return []*c12Scope{cur}, false
+	return outs, false
 }
 
 // ---------------------------------------------------------------------------
@@ -566,6 +533,7 @@ func (w *c12World) exec(i int, op *c12Op) {
 		return
 	}
 	w.executed++
+	w.after = nil
 	var pan *c12Panic
 	call := ""          // rendered call
 	outcome := ""       // rendered outcome
@@ -944,10 +912,7 @@ func (w *c12World) exec(i int, op *c12Op) {
 		} else {
 			outcome = "an unknown scope"
 		}
-		if any {
-			break
-		}
-		okRes := false
+		okRes := any
 		var wants []string
 		for _, o := range outs {
 			if o == nil {
@@ -974,6 +939,16 @@ func (w *c12World) exec(i int, op *c12Op) {
 				cls = "no-error"
 			}
 			resFail(cls, fmt.Sprintf("returned %s, want %s", outcome, strings.Join(wants, " or ")))
+			break
+		}
+		if !w.quiet {
+			// one reading of the first element for this path, its one-element
+			// prefix and its extensions (c12_r5.go)
+			if p, class, detail := w.pathOneReading(s, op.P, got, err); p != nil {
+				pan = p
+			} else if class != "" {
+				resFail(class, detail)
+			}
 		}
 	case "Copy":
 		call = fmt.Sprintf("s%d = s%d.Copy()", op.New, op.S)
@@ -1060,6 +1035,16 @@ func (w *c12World) exec(i int, op *c12Op) {
 		// harness-side: the content of an external lookup object changes
 		x := w.exts[op.X]
 		v := w.value(op.V)
+		if op.A >= 0 {
+			// the lookup object answers a module (an existing scope)
+			a := w.scopes[op.A]
+			if a == nil {
+				w.executed--
+				w.skipped++
+				return
+			}
+			v = a.real
+		}
 		call = fmt.Sprintf("ext%d.values[%q] = %s", op.X, op.N, w.renderVal(v))
 		if v == nil && i%2 == 1 {
 			// a lookup object may answer the zero reflect.Value without an error: that reads as nil too
@@ -1108,6 +1093,10 @@ func (w *c12World) exec(i int, op *c12Op) {
 		} else {
 			w.logf("%s", call)
 		}
+		for _, l := range w.after {
+			w.logf("%s", l)
+		}
+		w.after = nil
 		cls := "ok"
 		if expectFail && (op.K == "Define" || op.K == "DefineGlobal" || op.K == "Set" || op.K == "NewModule" || op.K == "DefineType" || op.K == "DefineGlobalType" || op.K == "Get" || op.K == "Type" || op.K == "Addr") {
 			cls = "err"
@@ -1253,6 +1242,7 @@ type c12Gen struct {
 	fresh     int
 	focus     []int
 	focusTTL  int
+	pathy     bool // path-centred weights (c12_r5.go)
 }
 
 func (g *c12Gen) pickScope() int {
@@ -1438,13 +1428,17 @@ func (g *c12Gen) next() c12Op {
 			return base
 		case k < 97:
 			// external values: plain names only. UNSPECIFIED: what a lookup of a
-			// dotted name does when an external lookup supplies it; modules
-			// supplied by an external lookup are not in the domain either.
+			// dotted name does when an external lookup supplies it. A lookup may
+			// answer a module (an existing scope): an ordinary value for Get; what
+			// it means for a path lookup is accepted both ways (c12_r5.go).
 			base.K, base.X, base.N = "ExtPut", r.Intn(3), c12PlainNames[r.Intn(len(c12PlainNames))]
 			g.fresh++
 			base.V = 100 + g.fresh
 			if r.Intn(4) == 0 {
 				base.V = r.Intn(8)
+			}
+			if r.Intn(5) == 0 {
+				base.A = g.w.order[r.Intn(len(g.w.order))]
 			}
 			return base
 		case k < 98:
@@ -1462,7 +1456,11 @@ func (g *c12Gen) next() c12Op {
 
 // c12Generate builds and executes one random history.
 func c12Generate(r *rand.Rand, length, maxScopes int) ([]c12Op, *c12World) {
-	g := &c12Gen{r: r, w: c12NewWorld(false), maxScopes: maxScopes, nextH: 0}
+	return c12GenerateWith(r, length, maxScopes, false)
+}
+
+func c12GenerateWith(r *rand.Rand, length, maxScopes int, pathy bool) ([]c12Op, *c12World) {
+	g := &c12Gen{r: r, w: c12NewWorld(false), maxScopes: maxScopes, nextH: 0, pathy: pathy}
 	push := func(op c12Op) bool {
 		i := len(g.ops)
 		g.ops = append(g.ops, op)
@@ -1487,9 +1485,18 @@ func c12Generate(r *rand.Rand, length, maxScopes int) ([]c12Op, *c12World) {
 		return g.ops, g.w
 	}
 	for len(g.ops) < length {
-		if !push(g.next()) {
+		op := c12Op{}
+		if g.pathy {
+			op = g.nextPathy()
+		} else {
+			op = g.next()
+		}
+		if !push(op) {
 			return g.ops, g.w
 		}
+	}
+	if g.pathy {
+		return g.ops, g.w
 	}
 	// drain: delete-nearest every name from every live scope until nothing is
 	// left, which exposes the bindings that were shadowed (also inside deep copies)
@@ -1717,9 +1724,11 @@ func init() {
 		ID: "C12",
 		Plan: func(tier string) fw.Plan {
 			nRand := 4000
+			nPaths := 1500
 			enumLen := 4
 			if tier == "thorough" {
 				nRand = 120000
+				nPaths = 40000
 				enumLen = 5
 			}
 			_ = enumLen
@@ -1729,16 +1738,20 @@ func init() {
 					"(value/type symbol sets, Get/GetValue of 6 names and Type of 9 names from every live scope) are compared. phase fixed: hand-written histories. phase enum: ALL sequences of length 4 (thorough: 5) over a " +
 					fmt.Sprintf("%d-operation value alphabet and of length 4 over a %d-operation type alphabet on a fixed 3-level chain with module, copy, deep copy and external lookup. ", nv, nt) +
 					"phase random: PRNG histories of 40-200 calls over all 26 API entry points on a forest of <=12 scopes, followed by a delete-nearest drain that exposes shadowed bindings. " +
+					"phase paths: PRNG histories of 30-90 calls centred on path lookup: modules with sub-modules on a forest of <=10 scopes, module names rebound to plain values and to other modules in nearer scopes, " +
+					"external lookups answering plain values and modules, path lookups of 1-3 elements from every depth. Whenever the statement leaves the scope denoted by the first element of a path open, the same scope also looks up " +
+					"the one-element prefix and up to four two-element extensions in the same state: all results must follow ONE reading of the first element. " +
 					"A history is non-trivial when it performed >=2 state changes on >=2 scopes; distinct = distinct operation list.",
 				Assumptions: []string{
 					"values are compared by Go interface equality (pool: nil, int64, string, bool, float64, one pointer, *env.Env); reflect.Values handed to the API are always valid",
-					"external lookups are harness objects holding plain (undotted) names and no modules",
-					"accepted both ways: Set/DeleteGlobal of a name an external lookup of a nearer scope supplies; path lookup whose nearest first-element binding is a non-module while an outer module exists; later path elements that only the module's parent chain could supply; Addr returning 'unaddressable'",
+					"external lookups are harness objects holding plain (undotted) names; they answer plain values and modules (existing scopes)",
+					"accepted both ways: Set/DeleteGlobal of a name an external lookup of a nearer scope supplies; path lookup whose nearest first-element binding is a non-module while an outer module exists, or whose first element an external lookup answers with a module (three readings of the first element: nearest binding / nearest table module / nearest module with lookups; one reading must explain a path, its one-element prefix and its two-element extensions in one state); later path elements that only the module's external lookup or parent chain could supply; Addr returning 'unaddressable'",
 				},
 				Phases: []fw.Phase{
 					{Name: "fixed", Cases: len(c12Fixed), Chunk: len(c12Fixed), TimeoutS: 300},
 					{Name: "enum", Cases: c12EnumCases(tier), Chunk: c12EnumChunk(tier), Exhaust: true, TimeoutS: 900},
 					{Name: "random", Cases: nRand, Chunk: c12RandChunk(tier), TimeoutS: 900},
+					{Name: "paths", Cases: nPaths, Chunk: 4 * c12RandChunk(tier), Jobs: 4, MemMB: 3072, TimeoutS: 900},
 				},
 			}
 		},
@@ -1775,6 +1788,11 @@ func init() {
 					}
 					c.Tag("enum:types")
 				}
+			case "paths":
+				c.Begin(map[string]interface{}{"paths": c.Index})
+				ops, w := c12GenerateWith(c.Rng, 30+c.Rng.Intn(61), 10, true)
+				c.Tag("path-history")
+				c12Report(c, "paths", ops, w)
 			default:
 				c.Begin(map[string]interface{}{"random": c.Index})
 				length := 40 + c.Rng.Intn(161)
